@@ -58,6 +58,10 @@ def main():
         ck.e2('ed-pair-%s' % flt, h_ed.make(dict(entry='filter_pair', filter=flt, lens=[1, 2] if quick else [0, 1, 2, 3],
                                                  q=[2], padding=[True], taus=[1] if quick else [0, 1, 2], props=P)),
               bounds=dict(strings='len <= %d' % (2 if quick else 3), q=2))
+        ck.e2('ed-pair-two-letters-%s' % flt, h_ed.make(dict(entry='filter_pair', filter=flt, lens_l=[3, 4],
+                                                             lens_r=[4, 5] if not quick else [4], alphabet=2, q=[2],
+                                                             padding=[True], taus=[1, 2], props=P)),
+              bounds=dict(strings='len 3..5 over two symbolic letters', q=2))
         ck.e2('ed-tables-%s' % flt, h_ed.make(dict(entry='filter_split', filter=flt, nl=1, nr=2, lens_l=[2],
                                                    lens_r=[1] if quick else [1, 2], q=[2], padding=[True], taus=[1],
                                                    props=P)), bounds=dict(rows='1x2', q=2))
